@@ -327,7 +327,87 @@ def rule_g(R, ctx):
              "undone through the parent chain before GC runs" % later, "%s:%s" % (fn.file, fn.blocks[p]["t"].get("line")))
 
 
+def rule_l(R, ctx, rid="C12.l"):
+    from ylib.formula import Formulas, truth_check, fshow, atoms_of
+    Y = ctx.yrs
+    R.rule(rid, "R-GUARD capture predicate: UndoManager::should_skip answers exactly (capture_transaction says no) || !(some scope "
+                "type is among the transaction's changed parent types) || !(origin tracked), where origin tracked = the "
+                "transaction's origin is in tracked_origins, or — with no origin — tracked_origins holds the manager alone; by "
+                "truth table over the path formula of the returned value. A transaction that touched nothing in scope never "
+                "becomes a step whatever its origin (it would clear the redo stack and advance the capture window)")
+    fn = Y.fn(UM + "::should_skip")
+    fm = Formulas(fn, simp_deep)
+    f = fm.local_formula(0)
+
+    def fp(t):
+        return field_path(simp_deep(t)) if isinstance(t, tuple) else []
+
+    def classify(k, t):
+        if not isinstance(t, tuple):
+            return None
+        t = simp_deep(t)
+        if t[0] == "field" and fp(t)[-1:] == ["capture_transaction"]:
+            return ("!" if k.endswith(" is None") else "") + "CT"
+        if t[0] == "call":
+            nm = F.strip_generics(t[1])
+            if re.search(r"ops::Fn(Mut|Once)?::call(_mut|_once)?$", nm) and fp(t[2][0])[-1:] == ["capture_transaction"]:
+                return "CTR"
+            if nm.endswith("Iterator::any") and term_has_field(t[2][0], "Inner.scope"):
+                return "ANY"
+            if nm.endswith("Option::unwrap_or") and term_has_call(t, TXN + "::origin") and term_has_field(t, "Options.tracked_origins"):
+                return "TRACKED"
+            if nm.endswith("TransactionMut::origin") and (k.endswith(" is Some") or k.endswith(" is None")):
+                return ("!" if k.endswith(" is None") else "") + "OS"
+            if nm.endswith("HashSet::contains") and fp(t[2][0])[-1:] == ["tracked_origins"]:
+                return "CO"
+        if t[0] == "bin" and t[1] in ("Eq", "Ne") and term_has_field(t, "Options.tracked_origins") and term_has_call(t, "re:HashSet::len$"):
+            c = [x for x in (simp_deep(t[2]), simp_deep(t[3])) if x[0] == "const"]
+            if c and c[0][1] == 1:
+                return ("!" if t[1] == "Ne" else "") + "L1"
+        return None
+
+    def required(e):
+        if "ANY" not in e:
+            return None
+        if "TRACKED" in e:
+            tr = e["TRACKED"]
+        elif "OS" in e and "CO" in e and "L1" in e:
+            tr = e["CO"] if e["OS"] else e["L1"]
+        else:
+            return None
+        veto = e.get("CT", False) and not e.get("CTR", True)
+        if e.get("CT") is False and "CTR" in e and e["CTR"] is False:
+            pass  # CTR is not evaluated when no predicate is installed
+        return veto or (not e["ANY"]) or (not tr)
+
+    names = {classify(k, t) for k, t in atoms_of(f).items()}
+    free = [k for k, t in atoms_of(f).items() if classify(k, t) is None]
+    ok, cex, keys = truth_check(f, classify, required, max_atoms=12)
+    have = "ANY" in names and ("TRACKED" in names or {"OS", "CO"} <= {n.lstrip("!") for n in names if n})
+    R.ob(rid, fn, "formula", ok and have and not free,
+         "skip = %s" % fshow(f) if ok and have and not free else
+         "the predicate differs from veto || !in_scope || !origin_tracked: %s" % (cex if have and not free else
+                                                                                    "atoms %s, unrecognised %s" % (sorted(n for n in names if n), free)))
+    # the two closures: membership tests on the very sets named above
+    cl = {c.path: c for c in Y.with_closures(fn) if c.path != fn.path}
+    R.floor(rid, "closures of should_skip", len(cl), 1)
+    seen = set()
+    for c in cl.values():
+        cv = FnView(c)
+        for cs in c.calls_to("re:::contains$"):
+            p = fp(cv.arg(cs, 0))
+            if p[-1:] == ["changed_parent_types"] or p[-1:] == ["tracked_origins"]:
+                seen.add(p[-1])
+    for cs in fn.calls_to("re:::contains$"):
+        p = fp(FnView(fn).arg(cs, 0))
+        if p[-1:]:
+            seen.add(p[-1])
+    R.ob(rid, fn, "membership", {"changed_parent_types", "tracked_origins"} <= seen,
+         "membership is tested on %s" % sorted(seen))
+
+
 def check(ctx, R):
+    R.run("C12.l", rule_l, ctx)
     R.run("C12.a", rule_a, ctx)
     R.run("C12.b", rule_b, ctx)
     R.run("C12.c", rule_c, ctx)
